@@ -2283,13 +2283,19 @@ where
 
         let mut fragments = C::new();
 
+        // whether the item being read has yielded its value already
+        // (items of length zero do not produce a value token)
+        let mut item_has_value = false;
+
         for token in dataset {
             match token.context(ReadTokenSnafu)? {
                 DataToken::OffsetTable(table) => {
                     offset_table = Some(table);
+                    item_has_value = true;
                 }
                 DataToken::ItemValue(data) => {
                     fragments.push(data);
+                    item_has_value = true;
                 }
                 DataToken::ItemEnd => {
                     // at the end of the first item ensure the presence of
@@ -2297,9 +2303,15 @@ where
                     // are seen as compressed fragments
                     if offset_table.is_none() {
                         offset_table = Some(Vec::new())
+                    } else if !item_has_value {
+                        // an item of length zero after the offset table
+                        // is an empty fragment, which must not be dropped
+                        fragments.push(Vec::new());
                     }
                 }
-                DataToken::ItemStart { len: _ } => { /* no-op */ }
+                DataToken::ItemStart { len: _ } => {
+                    item_has_value = false;
+                }
                 DataToken::SequenceEnd => {
                     // end of pixel data
                     break;
